@@ -338,6 +338,16 @@ def main():
     elif n_ob == 0:
         out_lines.append('CHECKER-FAULT property=%s zero obligations' % prop)
         exit_code = 3
+    # encoding conformance of the executor against CPython (arithmetic, slicing, numpy scalars): every thorough run,
+    # and the quick run of C02 (where index arithmetic is decided)
+    selftest = None
+    if a.tier == 'thorough' or prop == 'C02':
+        st_ = subprocess.run([sys.executable, os.path.join(VERIF, 'tools', 'engine_selftest.py')], capture_output=True, text=True,
+                             env=dict(os.environ, PYTHONPATH=VERIF))
+        selftest = (st_.stdout.strip().splitlines() or ['no output'])[-1]
+        if st_.returncode != 0:
+            out_lines.append('CHECKER-FAULT property=%s executor self-test disagrees with CPython: %s' % (prop, selftest[:200]))
+            exit_code = exit_code or 3
 
     for l in kf_lines + out_lines:
         print(l)
@@ -387,6 +397,7 @@ def main():
             'known_findings_reproduced': sorted(known_hits),
             'known_finding_obligations': {k: v for k, v in sorted(known_hits.items())},
             'undecided': [u[0] for u in undecided],
+            'encoding_conformance': selftest,
             'bounded_standins': standins,
             'extraction_drops': 'docstrings, type annotations, text of f-strings / log / warning / exception '
                                 'messages, __str__/__repr__, __main__ blocks',
